@@ -202,3 +202,72 @@ func codecPurity(c *Ctx, r *Report, roots []*ssa.Function, pkgPath, rule, what s
 		r.check(bad == "", rule, "variable "+g.Pkg.Pkg.Name()+"."+g.Name()+"|assigned at initialisation only", pos, "read on the "+what+" path, assigned only by the package initialiser", "package-level variable "+g.Name()+" is read on the "+what+" path and modified by "+bad+": the result depends on when that ran")
 	}
 }
+
+// handlerStateless: a Diameter handler is one function value that serves every
+// request of every connection.  Anything it keeps outside its own frame - a
+// variable of the enclosing function captured by the closure and assigned or
+// handed out by address, or a package-level variable it writes - survives from
+// one request to the next: fields an answer does not set keep the previous
+// request's values (go-diameter's Unmarshal only sets AVPs that are present),
+// and concurrent connections share it.  One obligation per handler closure.
+func handlerStateless(c *Ctx, r *Report, rule, rel, outerName string) bool {
+	outer := c.fn(rel, outerName)
+	ok := true
+	for _, f := range withAnon(outer) {
+		if f == outer {
+			continue
+		}
+		bad := ""
+		pos := c.rel(f.Pos())
+		for _, fv := range f.FreeVars {
+			for _, ref := range *fv.Referrers() {
+				written := ""
+				switch x := ref.(type) {
+				case *ssa.UnOp:
+					continue // plain read
+				case *ssa.Store:
+					if x.Addr == ssa.Value(fv) {
+						written = "assigned"
+					}
+				case *ssa.FieldAddr, *ssa.IndexAddr:
+					// a member of the captured variable: written if stored through or handed out
+					for _, r2 := range *x.(ssa.Value).Referrers() {
+						switch y := r2.(type) {
+						case *ssa.Store:
+							if y.Addr == x.(ssa.Value) {
+								written = "assigned (member)"
+							}
+						case ssa.CallInstruction:
+							written = "handed out by address to " + callName(y)
+						}
+					}
+				case ssa.CallInstruction:
+					written = "handed out by address to " + callName(x)
+				case *ssa.MakeInterface, *ssa.MakeClosure:
+					written = "handed out by address"
+				}
+				if written != "" && bad == "" {
+					bad = "captured variable " + fv.Name() + " of " + outer.Name() + " is " + written
+					pos = posOf(c, ref)
+				}
+			}
+		}
+		for _, w := range stateWritesOf(f) {
+			if bad == "" {
+				bad = "package-level variable " + w.global.Name() + " is written (" + w.how + ")"
+				pos = posOf(c, w.ins)
+			}
+		}
+		if !r.check(bad == "", rule, fnKey(f)+"|no state kept between requests", pos, "the handler's working variables are local to one invocation", "the handler closure keeps state between requests: "+bad+" - members an incoming message does not set keep the previous request's values (e.g. the subscriber of the previous request is debited, the previous grant is repeated), and connections race on it") {
+			ok = false
+		}
+	}
+	return ok
+}
+
+func callName(ci ssa.CallInstruction) string {
+	if obj := calleeObj(ci.Common()); obj != nil {
+		return obj.Name()
+	}
+	return "a call"
+}
